@@ -1398,6 +1398,11 @@ func rangeIndexInBounds(fi *FuncInfo, e ast.Expr) bool {
 // expression, on every path, the length guard must be established: c <= len(x) for x[:c] / x[c:], c < len(x) for x[c].
 func boundsByCallers(c *Ctx, holder *FuncInfo, site ast.Expr) (string, bool) {
 	root := holder.Root()
+	// the function's own analysis first: a guard established by a helper that is interpreted in place (or by the function
+	// itself in a spelling the compiler's prove pass does not follow) justifies the expression on every path
+	if found, ok := boundsHoldIn(c, root, site); found > 0 && ok {
+		return "the length guard holds at the expression on every path of " + root.Name + " (E1 facts, helpers interpreted in place)", true
+	}
 	if root.Obj == nil || c.helpers()[root.Obj] == nil || c.helpers()[root.Obj].escapes {
 		return "", false
 	}
@@ -1405,6 +1410,22 @@ func boundsByCallers(c *Ctx, holder *FuncInfo, site ast.Expr) (string, bool) {
 	if len(callers) == 0 || (len(callers) == 1 && callers[0] == root.Name) {
 		return "", false
 	}
+	for _, cn := range callers {
+		g := c.P.Fn(cn)
+		if g == nil || g.Body == nil {
+			return "", false
+		}
+		found, ok := boundsHoldIn(c, g, site)
+		if !ok || found == 0 {
+			return "", false
+		}
+	}
+	return "the expression sits in a helper interpreted in place in " + strings.Join(callers, ", ") + "; the length guard holds there on every path (E1)", true
+}
+
+// boundsHoldIn: in the E1 analysis of g (helpers interpreted in place), every occurrence of the index / slice expression
+// `site` is reached only in states that carry its length guard.
+func boundsHoldIn(c *Ctx, g *FuncInfo, site ast.Expr) (int, bool) {
 	e := c.e1()
 	if !e.wantIndex {
 		e.wantIndex = true
@@ -1412,51 +1433,45 @@ func boundsByCallers(c *Ctx, holder *FuncInfo, site ast.Expr) (string, bool) {
 		e.cache = map[*FuncInfo]*e1func{}
 		e.inferred, e.inferring = nil, nil
 	}
-	for _, cn := range callers {
-		g := c.P.Fn(cn)
-		if g == nil || g.Body == nil {
-			return "", false
+	if g == nil || g.Body == nil {
+		return 0, false
+	}
+	f := e.analyse(g)
+	found := 0
+	for _, s := range f.sites {
+		if s.kind != "index" || s.node != ast.Node(site) {
+			continue
 		}
-		f := e.analyse(g)
-		found := 0
-		for _, s := range f.sites {
-			if s.kind != "index" || s.node != ast.Node(site) {
-				continue
-			}
-			found++
-			var clauses []Clause
-			b := Bind{}
-			t := s.term
-			isConst := func(x *Term) bool { _, ok := constValueOf(x); return ok }
+		found++
+		var clauses []Clause
+		b := Bind{}
+		t := s.term
+		isConst := func(x *Term) bool { _, ok := constValueOf(x); return ok }
+		switch {
+		case t.K == "slice" && len(t.A) == 4 && t.A[3].S == "" && t.A[3].K == "const":
+			lo, hi := t.A[1], t.A[2]
+			loEmpty, hiEmpty := lo.K == "const" && lo.S == "", hi.K == "const" && hi.S == ""
+			b["x"] = t.A[0]
 			switch {
-			case t.K == "slice" && len(t.A) == 4 && t.A[3].S == "" && t.A[3].K == "const":
-				lo, hi := t.A[1], t.A[2]
-				loEmpty, hiEmpty := lo.K == "const" && lo.S == "", hi.K == "const" && hi.S == ""
-				b["x"] = t.A[0]
-				switch {
-				case !loEmpty && hiEmpty && isConst(lo):
-					b["c"] = lo
-				case loEmpty && !hiEmpty && isConst(hi):
-					b["c"] = hi
-				default:
-					return "", false
-				}
-				clauses = append(clauses, mustClause("le($c, len($x))"))
-			case t.K == "index" && len(t.A) == 2 && isConst(t.A[1]):
-				b["x"], b["c"] = t.A[0], t.A[1]
-				clauses = append(clauses, mustClause("lt($c, len($x))"))
+			case !loEmpty && hiEmpty && isConst(lo):
+				b["c"] = lo
+			case loEmpty && !hiEmpty && isConst(hi):
+				b["c"] = hi
 			default:
-				return "", false
+				return found, false
 			}
-			for _, st := range s.states {
-				if r := solve(st, clauses, b.clone()); !r.ok {
-					return "", false
-				}
-			}
+			clauses = append(clauses, mustClause("le($c, len($x))"))
+		case t.K == "index" && len(t.A) == 2 && isConst(t.A[1]):
+			b["x"], b["c"] = t.A[0], t.A[1]
+			clauses = append(clauses, mustClause("lt($c, len($x))"))
+		default:
+			return found, false
 		}
-		if found == 0 {
-			return "", false
+		for _, st := range s.states {
+			if r := solve(st, clauses, b.clone()); !r.ok {
+				return found, false
+			}
 		}
 	}
-	return "the expression sits in a helper interpreted in place in " + strings.Join(callers, ", ") + "; the length guard holds there on every path (E1)", true
+	return found, true
 }
